@@ -80,7 +80,7 @@ func runC02(w *h.W, batch int) {
 			opt.N = cr.Range(3000, 9000)
 		}
 		corp := gen.MakeCorpus(cr, opt)
-		form := []string{"active", "sealed", "two-fracs"}[cr.Intn(3)]
+		form := []string{"active", "sealed", "two-fracs", "active-interleaved", "sealed-interleaved"}[cr.Intn(5)]
 		dir := w.Sub(fmt.Sprintf("c%d", ci))
 		st, err := sdb.Open(dir, sdb.Opt{Mapping: StoreMapping()})
 		if err != nil {
@@ -97,6 +97,41 @@ func runC02(w *h.W, batch int) {
 		case "sealed":
 			ierr = ingest(st, docs, cr, cr.Range(1, 6))
 			st.SealAll()
+		case "active-interleaved", "sealed-interleaved":
+			// searches between the bulks: posting lists are merged lazily by readers, so the state a later bulk is merged into
+			// depends on what was searched before (every search touches _all_); each interleaved search is judged as a case of its own
+			nb := cr.Range(2, 8)
+			step := max(1, len(docs)/nb)
+			for lo := 0; lo < len(docs) && ierr == nil; lo += step {
+				hi := min(len(docs), lo+step)
+				if ierr = st.Bulk(docs[lo:hi]); ierr != nil {
+					break
+				}
+				st.WaitIdle()
+				sofar := docs[:hi]
+				for k := 0; k < 3; k++ {
+					qr := cr.Fork()
+					q := corp.Query(qr, gen.QueryOpt{MaxDepth: qr.Range(0, 2)})
+					from, to, _ := corp.TimeRange(qr)
+					matches := int(model.Search(sofar, model.Req{Q: q, From: from, To: to}).Total)
+					limit, _ := gen.LimitFor(qr, matches)
+					sc := &searchCase{Query: q.Legacy(qr), Lang: "legacy", From: from, To: to, Asc: qr.Bool(), Limit: limit, WithTotal: qr.Bool(), Form: form + "/between-bulks", Corpus: fmt.Sprintf("%d of %d docs ingested", hi, len(docs))}
+					if !w.Begin(sc) {
+						continue
+					}
+					class, detail, _ := compareSearch(st, sofar, q, sc, qr)
+					w.Count("searches_between_bulks", 1)
+					if class != "" {
+						detail["case"] = sc
+						w.Violation("C02:"+class+":between-bulks", detail)
+						continue
+					}
+					w.Held(q.Shape()+"|between-bulks|"+form, matches > 0 && matches < hi)
+				}
+			}
+			if form == "sealed-interleaved" && ierr == nil {
+				st.SealAll()
+			}
 		case "two-fracs":
 			half := len(docs) / 2
 			ierr = ingest(st, docs[:half], cr, cr.Range(1, 3))
